@@ -7,7 +7,7 @@ from ..runner import Leg, Res, libcall
 
 PROPERTY = 'C16'
 NEED_C = True
-RULE = ('3..8 series (lengths 2..5, ndim 1..2, duplicates allowed, list or matrix container), k in 1..n-1, a drawn seed '
+RULE = ('3..8 series (lengths 2..6, ndim 1..2, duplicates allowed, list or matrix container; a third of the data sets are built as convex combinations of 2-3 patterns, time-stretched, so that nearest-mean decisions are near-ties), k in 1..n-1 (biased to 2..3), a drawn seed '
         '(numpy and random are seeded from it inside the case), initialisation {k-means++ default, random, explicit sample '
         'size}, drop_stddev in {None,1,2,3}, max_it 1..5, window / penalty, use_c, serial (and a few parallel runs in the '
         'thorough tier), a recording monitor_distances callback. Oracle: keys exactly 0..k-1, the sets partition range(n), '
@@ -20,25 +20,49 @@ ASSUMPTIONS = ['initialize_sample_size is kept <= n - k (the default bound); fit
 
 @st.composite
 def _case(draw, parallel_ok):
-    ndim = draw(st.sampled_from([1, 1, 2]))
+    ndim = draw(st.sampled_from([1, 1, 2, 2]))
     n = draw(st.integers(3, 8))
     eq = draw(st.booleans())
-    L0 = draw(st.integers(2, 5))
-    regime = draw(st.sampled_from(['L', 'L', 'F']))
+    L0 = draw(st.integers(2, 6))
+    regime = draw(st.sampled_from(['L', 'L', 'L', 'F']))
     series = []
-    for _ in range(n):
-        L = L0 if eq else draw(st.integers(2, 5))
-        series.append(draw(gen.series(L, L, regime, ndim)))
+    kind = draw(st.sampled_from(['free', 'free', 'between']))
+    if kind == 'free':
+        for _ in range(n):
+            L = L0 if eq else draw(st.integers(2, 6))
+            series.append(draw(gen.series(L, L, regime, ndim)))
+    else:
+        # near-ties by construction: two or three patterns and series that lie between them (convex combinations on a
+        # grid, time-stretched to other lengths), so that which mean is nearest hinges on small distance differences
+        regime = 'L'
+        pats = [draw(gen.series(L0, L0, 'L', ndim)) for _ in range(draw(st.integers(2, 3)))]
+        for _ in range(n):
+            a, b = draw(st.sampled_from(pats)), draw(st.sampled_from(pats))
+            t = draw(st.sampled_from([0.0, 0.25, 0.5, 0.5, 0.75, 1.0]))
+            if ndim == 1:
+                mix = [t * x + (1 - t) * y for x, y in zip(a, b)]
+            else:
+                mix = [[t * x + (1 - t) * y for x, y in zip(pa, pb)] for pa, pb in zip(a, b)]
+            if not eq:
+                out = []
+                for x in mix:
+                    for _k in range(draw(st.integers(1, 2))):
+                        if len(out) < 8:
+                            out.append(list(x) if ndim > 1 else x)
+                mix = out
+            series.append(mix)
     for _ in range(draw(st.integers(0, 3))):
         series[draw(st.integers(0, n - 1))] = [x[:] if ndim > 1 else x for x in series[draw(st.integers(0, n - 1))]]
         if eq is False:
             pass
-    k = draw(st.integers(1, n - 1))
+    # few clusters relative to the number of series: assignments are then decided by comparisons between means that
+    # are real averages (with k close to n every mean is one of the series and every assignment is trivially right)
+    k = min(n - 1, draw(st.sampled_from([1, 2, 2, 2, 3, 3, 4, 7])))
     init = draw(st.sampled_from(['kmeans++', 'kmeans++', 'random', 'sample']))
     return {'series': series, 'ndim': ndim, 'k': k, 'seed': draw(st.integers(0, 10 ** 6)), 'init': init,
             'sample_size': draw(st.integers(1, max(1, n - k))), 'drop_stddev': draw(st.sampled_from([None, None, 1, 2, 3])),
             'max_it': draw(st.integers(1, 5)), 'window': draw(st.one_of(st.none(), st.integers(1, 5))),
-            'penalty': draw(st.sampled_from([None, None, 0.5])), 'use_c': draw(st.booleans()),
+            'penalty': draw(st.sampled_from([None, None, 0.5, 2.0, 3.0, 3.0])), 'use_c': draw(st.booleans()),
             'container': 'matrix' if (len({len(s) for s in series}) == 1 and draw(st.booleans())) else 'list',
             'parallel': parallel_ok and draw(st.integers(0, 19)) == 0}
 
@@ -121,7 +145,7 @@ def run(case):
 
 
 def legs(tier):
-    return [Leg('kmeans', _case(tier != 'quick'), run, 2400, 24000, max_shrink_buckets=6)]
+    return [Leg('kmeans', _case(tier != 'quick'), run, 4800, 48000, max_shrink_buckets=6)]
 
 
 REGIONS = {}
